@@ -277,6 +277,27 @@ func packFacts(f *facts) {
 
 // ---- C10: serializer ----
 func serFacts(f *facts) {
+	{
+		var strSw, mapSw *ast.SwitchStmt
+		if fd := fn("output/fluentdforward/eventserializer.go", "encodeRecord", "eventSerializer"); fd != nil {
+			inspect(fd.Body, func(n ast.Node) bool {
+				if sw, ok := n.(*ast.SwitchStmt); ok && sw.Tag == nil {
+					body := src(sw.Body)
+					if strSw == nil && strings.Contains(body, "EncodeString4(") && strings.Contains(body, "EncodeString32(") && strings.Contains(src(sw.Body.List[0]), "len(value)") {
+						strSw = sw
+					}
+					if mapSw == nil && strings.Contains(body, "EncodeMapLen4(") && strings.Contains(src(sw.Body.List[0]), "len(fields)") {
+						mapSw = sw
+					}
+				}
+				return true
+			})
+		}
+		f.switchClass("gen_str_class", "eventserializer.go encodeRecord: which string header a field value of length n gets (0 = fixstr, 1 = str16, 2 = str32)",
+			strSw, []string{"n"}, map[string]string{"len(value)": "n"})
+		f.switchClass("gen_map_class", "eventserializer.go encodeRecord: which map header is reserved for a schema of nf fields (0 = fixmap, 1 = map16)",
+			mapSw, []string{"nf"}, map[string]string{"len(fields)": "nf"})
+	}
 	const file = "output/fluentdforward/eventserializer.go"
 	// length-class thresholds of raw field values: the `switch { case len(value) < A: …4 case len(value) < B: …16 default: …32 }`
 	f.note["ser_str_thresholds"] = "eventserializer.go encodeRecord: thresholds A, B of the first `case len(value) < A / < B` switch choosing EncodeString4/16/32"
@@ -594,6 +615,37 @@ func paramFacts(f *facts) {
 
 // ---- C09 / C07: input/syslogparser, input/syslogprotocol ----
 func parseFacts(f *facts) {
+	{
+		var fac, sev, rng ast.Expr
+		if fd := fn("input/syslogparser/syslogparser.go", "Parse", "syslogParser"); fd != nil {
+			inspect(fd.Body, func(n ast.Node) bool {
+				switch x := n.(type) {
+				case *ast.AssignStmt:
+					if len(x.Lhs) == 1 && len(x.Rhs) == 1 {
+						switch src(x.Lhs[0]) {
+						case "facility":
+							if fac == nil {
+								fac = x.Rhs[0]
+							}
+						case "severity":
+							if sev == nil {
+								sev = x.Rhs[0]
+							}
+						}
+					}
+				case *ast.IfStmt:
+					if rng == nil && strings.Contains(src(x.Cond), "facility") && strings.Contains(src(x.Body), "onMalformed") && endsInReturn(x.Body) {
+						rng = x.Cond
+					}
+				}
+				return true
+			})
+		}
+		f.arith("gen_pri_facility", "syslogparser.go Parse: facility from the PRI value", fac, []string{"pri"}, map[string]string{"priVal": "pri"})
+		f.arith("gen_pri_severity", "syslogparser.go Parse: severity from the PRI value", sev, []string{"pri"}, map[string]string{"priVal": "pri"})
+		f.cond("gen_facility_rejected", "syslogparser.go Parse: the facility range check that drops the record", rng, []string{"facility", "n"},
+			map[string]string{"facility": "facility", "len(syslogprotocol.FacilityNames)": "n"})
+	}
 	f.note["facility_names"] = "syslogprotocol.FacilityNames"
 	f.strs["facility_names"] = strList("input/syslogprotocol/syslogprotocol.go", "FacilityNames")
 	f.note["severity_names"] = "syslogprotocol.SeverityNames"
